@@ -844,10 +844,12 @@ class Facts:
             return self._cg
         cg = defaultdict(set)
         ext = defaultdict(set)  # key -> set of external callee paths (resolved)
+        allrefs = []
         for b in self.bodies.values():
             owner = b.key
 
             def note_fn(f):
+                allrefs.append(f)
                 r = f.get("resolved") or f
                 if r["local"]:
                     cg[owner].add(r["key"])
@@ -901,8 +903,52 @@ class Facts:
                     note_operand(t["discr"])
                 elif t["k"] == "Assert":
                     note_operand(t["cond"])
+        # A private generic function (`fn error_message<E: Display>(e: E) -> String { e.to_string() }`) calls trait
+        # methods on its type parameters; the callee is only known per instantiation.  Every reference to the function
+        # lists its type arguments (`targs`, in the order of the item's `generics`): for each instantiation the call
+        # goes to the local impl for that type, if there is one (external types: classified by the API tables).
+        inst = defaultdict(list)
+        for f in allrefs:
+            r = f.get("resolved") or f
+            if r.get("local") and f.get("targs") and self.items.get(r["key"], {}).get("generics") and list(f["targs"]) not in inst[r["key"]]:
+                inst[r["key"]].append(list(f["targs"]))
+        self._inst = inst
+        by_name = {}
+        for k, it in self.items.items():
+            if it.get("kind") == "fn" and it.get("name"):
+                by_name.setdefault(it["name"], []).append(k)
+        for b in self.bodies.values():
+            root = b.key.split("::{closure#", 1)[0]
+            gen = self.items.get(root, {}).get("generics") or []
+            if not gen:
+                continue
+            for bi, t in b.calls(reach_only=False):
+                c = t.get("callee")
+                if not c or c.get("resolved") or not c.get("targs"):
+                    continue
+                selfty = c["targs"][0].lstrip("&").replace("mut ", "")
+                if selfty not in gen:
+                    continue
+                trait, meth = c["path"].rsplit("::", 1)
+                if trait == "std::string::ToString" and meth == "to_string":
+                    trait, meth = "std::fmt::Display", "fmt"
+                for targs in inst.get(root, []):
+                    if gen.index(selfty) >= len(targs):
+                        continue
+                    ty = targs[gen.index(selfty)].lstrip("&")
+                    hit = by_name.get("<%s as %s>::%s" % (ty, trait, meth), [])
+                    for k in hit:
+                        if k in self.bodies:
+                            cg[b.key].add(k)
+                    if not hit:
+                        ext[b.key].add("<%s as %s>::%s" % (ty, trait, meth))
         self._cg = (cg, ext)
         return self._cg
+
+    def instantiations(self, key):
+        """Type-argument lists with which the local generic function `key` is referenced anywhere in the crate."""
+        self.callgraph()
+        return self._inst.get(key, [])
 
     def reach(self, roots, extra_edges=None):
         cg, _ = self.callgraph()
